@@ -207,9 +207,13 @@ class GenIndex:
         for it in items:
             if it.kind == "impl":
                 ck = splice.container_key(it.header_key)
+                impl_head = sub[toks[it.lo].start:toks[it.body_lo].start]
                 for ch in it.children:
                     if ch.kind == "fn":
                         add(ch, ck)
+                        if "verifier::external" in impl_head:
+                            # an impl kept outside verification (R3b): its functions are not contracted
+                            self.funcs[-1]["external_body"] = True
             elif it.kind == "fn":
                 add(it, "")
 
